@@ -213,7 +213,7 @@ def run(chk, tier):
     for n, s in enumerate(related):
         w = s["width"]
         rows.append({"id": s["id"], "tables": s["tables"], "expect": s["expect"], "interleave": n % 2 == 1, "classes": s["classes"], "rel": s["rel"],
-                     "kinds": ["none", "pair_other_table", "out_notin", "table_cell"], "strategies": strategies,
+                     "kinds": ["none", "api_other_input", "pair_other_table", "out_notin", "table_cell"], "strategies": strategies,
                      "cfg": std if w == "std" else rnd.choice(by_width[w]["strong"]), "max_cor": 16})
     for s in heavy:
         rows.append({"id": s["id"], "tables": s["tables"], "expect": s["expect"], "interleave": False, "kinds": ["none"], "strategies": ["plain"],
@@ -347,7 +347,7 @@ def judge(chk, byid, res, rule, variant):
         d = relstat.setdefault(rel, {"complete": 0, "forged": {}})
         if x.get("complete") is True and not x["wrong_outputs"]:
             d["complete"] += 1
-        if x.get("kind") == "pair_other_table" and x.get("violated") and x.get("bad_pairs"):
+        if x.get("kind") in ("pair_other_table", "api_other_input") and x.get("violated") and x.get("bad_pairs"):
             d["forged"][x["strategy"]] = d["forged"].get(x["strategy"], 0) + 1
     chk.extra["related_tables"] = relstat
     if rel_of:
@@ -357,7 +357,9 @@ def judge(chk, byid, res, rule, variant):
             incomplete = any(rel_of.get(x.get("id")) == rel and x.get("complete") is False for x in res)
             if d["complete"] == 0 and not incomplete:
                 raise ToolError("vacuity: no related-table scenario of class %s completed" % rel)
-            for st in ("plain", "ext_plain", "ext_shift"):
+            for st in ("plain", "ext_plain", "ext_shift", "api"):
+                if st == "api" and rel not in ("prefix_long_first", "prefix_short_first", "long_prefix_identical", "short_long_shorter"):
+                    continue            # the other classes share all inputs
                 if rel == "permuted":
                     continue            # the same pairs in another order: no pair belongs to the other table only
                 if d["forged"].get(st, 0) == 0 and not incomplete:
